@@ -1186,3 +1186,24 @@ Qed.
 Theorem omitted_never_crashes env c nc ids :
   valid_grouping c ids -> forallb (wfb env) c = true -> decompose env c nc ids None <> Crashed.
 Proof. intros Hv Hw. rewrite (decompose_omitted env c nc ids Hv Hw). destruct (forallb has_bid c); discriminate. Qed.
+
+(* ====================================================================== *)
+(* O. the basis_id setter establishes the class invariant wfb              *)
+(* ====================================================================== *)
+
+Theorem setter_spec env b m :
+  (setter env b m = Ok tt <-> (0 <= m < Z.of_nat (length (nth b env [])))%Z) /\
+  (setter env b m <> Ok tt -> setter env b m = Refused).
+Proof.
+  unfold setter, bid_in_range. split.
+  - destruct (Z.leb_spec 0 m) as [Ha|Ha], (Z.ltb_spec m (Z.of_nat (length (nth b env [])))) as [Hb|Hb]; simpl;
+      split; intros Hx; try reflexivity; try discriminate; lia.
+  - destruct (_ && _)%bool; [congruence|reflexivity].
+Qed.
+
+Theorem setter_wfb env b h m l qs cs :
+  setter env b (Z.of_nat m) = Ok tt <-> wfb env (mkI (Qpd1 b h (Some m) l) qs cs) = true.
+Proof.
+  rewrite (proj1 (setter_spec env b (Z.of_nat m))). unfold wfb; simpl. rewrite Nat.ltb_lt.
+  unfold benv, basis in *. lia.
+Qed.
